@@ -133,6 +133,20 @@ def main(argv=None):
     options.stats = collections.Counter()
     options.deadline = time.process_time() + float(timeout)
 
+    # Watchdog against non-termination INSIDE one path (CrossHair checks its budgets only at symbolic
+    # operations, so a concrete infinite loop in the code under test would never return): a virtual-time
+    # (CPU) interval timer raises HarnessHang inside the running harness once the shard is far beyond its
+    # budget. It is an ordinary Exception, so CrossHair reports the path's inputs as a counterexample, and
+    # the plain replay (which has its own CPU alarm) decides whether the hang reproduces.
+    import signal
+    from vp.api import HarnessHang
+
+    def _hang(signum, frame):
+        raise HarnessHang("no progress: one execution path did not terminate within the CPU budget")
+
+    signal.signal(signal.SIGVTALRM, _hang)
+    signal.setitimer(signal.ITIMER_VIRTUAL, float(timeout) * 1.5 + 60, 5.0)
+
     try:
         with condition_parser(options.analysis_kind):
             analysis = analyze_calltree(options, conditions)
@@ -141,6 +155,7 @@ def main(argv=None):
                 wall_s=time.time() - t_wall)
         return 3
 
+    signal.setitimer(signal.ITIMER_VIRTUAL, 0)
     st = analysis.verification_status
     msgs = [dict(type=m.state.name, message=m.message, line=m.line,
                  tb=(m.traceback or "")[-1500:]) for m in analysis.messages]
